@@ -84,10 +84,10 @@ def plan(tier, seed):
             items.append((n, lo, hi))
         desc.append('classic algebra size %d: %d terms' % (n, total))
     if tier == 'quick':
-        total = 728304
+        a.terms(6)
+        total = sum(1 for _ in a.gen(7))
         width = 4000
         lo = (seed % (total // width)) * width
-        a.terms(6)
         items.append((7, lo, lo + width))
         desc.append('classic algebra size 7: slice [%d, %d) chosen by seed' % (lo, lo + width))
     return items, desc
